@@ -137,17 +137,28 @@ def main():
         files = {cand_names(dash, ext)[rng.choice([0, -1])]: ("file", fmode, body)}
         H.reset(files)
         qexit = rng.choice([0, 0, 0, 31, 53])
-        looping = rng.random() < 0.08
         local = "user-" + ext
-        m2 = (b"Delivered-To: " + local.encode() + b"@host.example\n" if looping else b"") + msg
+        # where (if anywhere) this recipient's own Delivered-To line stands: only a complete line of the HEADER makes a loop
+        dtl = b"Delivered-To: " + local.encode() + b"@host.example"
+        lk = rng.choice([0] * 14 + [1, 2, 3, 4, 5, 6, 7]) if it >= len(directed) else ([0] * 7 + [1, 2, 3, 4, 5, 6, 7])[it % 14]
+        m2 = {0: msg, 1: dtl + b"\n" + msg, 2: b"Subject: t\n\nbody\n" + dtl + b"\nmore\n", 3: b"Subject: t\n" + dtl + b"\n\nbody\n",
+              4: b"Delivered-To: other-" + local.encode() + b"@host.example\n" + msg, 5: b"Subject: t\n\n" + dtl + b"\n", 6: b"Subject: t\n" + dtl,
+              7: b"Subject: t\n" + dtl + b" \n" + dtl.lower() + b"\n\n" + dtl + b"\n"}[lk]
+        looping = lk in (1, 3)
         rc, out, err = H.run(["user", H.home, local, dash, ext, "host.example", "s@x.example", alias], m2, qexit=qexit)
         trace = open(os.path.join(H.home, "trace")).read().split() if os.path.exists(os.path.join(H.home, "trace")) else []
         nnew = len(os.listdir(os.path.join(H.home, "Maildir/new")))
         mboxn = open(os.path.join(H.home, "mbox"), "rb").read().count(b"\nSubject: t\n") if os.path.exists(os.path.join(H.home, "mbox")) else 0
         envf = open(H.qqout + ".env", "rb").read() if os.path.exists(H.qqout + ".env") else None
-        rjobs.append((dash, ext, files, body, qexit, looping, rc, trace, nnew, mboxn, envf))
+        rjobs.append((dash, ext, files, body, qexit, looping, rc, trace, nnew, mboxn, envf, m2, dtl))
     lines = []
-    for dash, ext, files, body, qexit, looping, rc, trace, nnew, mboxn, envf in rjobs:
+    # the model's own reading of the message decides the looping flag its plan is computed with
+    mloop, _, _ = vlib.run_lines(drv, ["loop %s %s" % (",".join(vlib.hx(l) for l in j[11].split(b"\n")[:-1]) or "-", vlib.hx(j[12])) for j in rjobs])
+    for j, ml_ in zip(rjobs, mloop):
+        if (ml_ == "1") != j[5]:
+            mism.append(dict(kind="input", mode="loop detection", message=j[11].decode("latin1"), line=j[12].decode("latin1"), model_looping=ml_, expected=j[5]))
+    rjobs = [j[:11] + (j[11],) for j in rjobs]
+    for dash, ext, files, body, qexit, looping, rc, trace, nnew, mboxn, envf, m2 in rjobs:
         progs = []
         for k, l in enumerate(body.split(b"\n")):
             mm = re.match(rb"^\|echo L(\d+) >> trace; exit (\d+)", l)
@@ -155,7 +166,7 @@ def main():
         q = 0 if qexit == 0 else (1 if qexit == 31 else 2)
         lines.append("run 0 0 %d %s %s %s %s %s %d" % (1 if looping else 0, vlib.hx(dash.encode()), vlib.hx(ext.encode()), vlib.hx(alias.encode()), files_arg(files), ",".join(progs) or "-", q))
     ml, _, _ = vlib.run_lines(drv, lines)
-    for (dash, ext, files, body, qexit, looping, rc, trace, nnew, mboxn, envf), m in zip(rjobs, ml):
+    for (dash, ext, files, body, qexit, looping, rc, trace, nnew, mboxn, envf, m2), m in zip(rjobs, ml):
         ck.evaluated(); ck.count("real_runs")
         ck.nontrivial(("run", body, qexit, looping, files[list(files)[0]][1]))
         steps, code = m.rsplit(" X", 1)
@@ -174,9 +185,10 @@ def main():
         obs = dict(exit=rc, programs_run=trace, maildir_deliveries=nnew, mbox_deliveries=mboxn, forward_envelope=None if envf is None else envf.decode("latin1"))
         exp = dict(exit=code, programs_run=exp_trace, maildir_deliveries=exp_new, mbox_deliveries=exp_mbox, forward_envelope=None if exp_env is None else exp_env.decode("latin1"))
         obj = dict(kind="configuration", mode="real run", ext=ext, qmail_file=list(files)[0], file_mode=oct(files[list(files)[0]][1]), body=body.decode("latin1"),
-                   queue_exit=qexit, looping=looping, observed=obs, model=exp)
+                   queue_exit=qexit, looping=looping, message=m2.decode("latin1"), observed=obs, model=exp)
         bad = None
         if looping and (rc != 100 or trace or nnew or mboxn or envf is not None): bad = "local:loop-not-cut"
+        elif not looping and rc == 100 and code != 100: bad = "local:non-looping-message-bounced"
         elif envf is not None and rc not in (0, 100, 111): bad = "local:exit-code"
         elif envf is not None and exp_env is None: bad = "local:forward-despite-earlier-failure"
         if bad: fails.append((bad, obj, len(body)))
@@ -226,5 +238,16 @@ def main():
 
 def replay(path):
     obj = json.load(open(path))
+    if obj.get("mode") == "real run" and "message" in obj:
+        rb = vlib.RepoBuild(); H = Home(rb)
+        H.reset({obj["qmail_file"]: ("file", int(obj["file_mode"], 8), obj["body"].encode("latin1"))})
+        ext = obj["ext"]
+        rc, out, err = H.run(["user", H.home, "user-" + ext, "-", ext, "host.example", "s@x.example", "./Maildir/"], obj["message"].encode("latin1"), qexit=obj["queue_exit"])
+        trace = open(os.path.join(H.home, "trace")).read().split() if os.path.exists(os.path.join(H.home, "trace")) else []
+        nnew = len(os.listdir(os.path.join(H.home, "Maildir/new")))
+        print("exit", rc, "programs", trace, "maildir deliveries", nnew, "stderr", err[:200], "| model:", json.dumps(obj["model"]))
+        ok = rc == obj["model"]["exit"] and trace == obj["model"]["programs_run"] and nnew == obj["model"]["maildir_deliveries"]
+        vlib._cleanup()
+        return 0 if ok else 1
     print("re-run ./check C13 (deterministic for the same VERIF_SEED); recorded case:", json.dumps(obj)[:900])
     return 0
